@@ -56,6 +56,26 @@ func eqConstStr(cond ssa.Value) (ssa.Value, string, bool) {
 	return nil, "", false
 }
 
+// tableLookupOf: v is the value of a comma-ok map lookup; okFact tells whether
+// block b is reached only when the lookup's ok result is true.
+func tableLookupOf(v ssa.Value, b *ssa.BasicBlock) (lk *ssa.Lookup, okFact bool, isTab bool) {
+	ex, ok := an.Strip(v).(*ssa.Extract)
+	if !ok || ex.Index != 0 {
+		return nil, false, false
+	}
+	lk, ok = ex.Tuple.(*ssa.Lookup)
+	if !ok || !lk.CommaOk {
+		return nil, false, false
+	}
+	for _, f := range an.BranchFacts(b) {
+		cond, neg := an.Not(f.Cond)
+		if e2, ok := an.Strip(cond).(*ssa.Extract); ok && e2.Tuple == ssa.Value(lk) && e2.Index == 1 && f.True != neg {
+			okFact = true
+		}
+	}
+	return lk, okFact, true
+}
+
 func ptrNamed(t types.Type) string {
 	if p, ok := t.(*types.Pointer); ok {
 		if nt, ok := p.Elem().(*types.Named); ok {
@@ -100,6 +120,33 @@ func (c *Ctx) kindMaps() *kindMaps {
 					tags = append(tags, k)
 				}
 			}
+		}
+		// table form: `kind, ok := table[requestPacket.Tag]; if !ok { return unknown, err }; return kind, nil`
+		if lk, okFact, isTab := tableLookupOf(res[0], ret.Block()); isTab && errNil && !isConst {
+			_, names := an.FieldChain(lk.Index)
+			tab, okTab := an.GlobalMapTable(lk.X)
+			switch {
+			case !okFact:
+				km.problems = append(km.problems, "requestType: the table entry is returned without testing that the tag is in the table at "+c.pos(ret))
+			case len(names) == 0 || names[len(names)-1] != "Tag":
+				km.problems = append(km.problems, "requestType: the table is not indexed by the protocolOp tag")
+			case !okTab:
+				km.problems = append(km.problems, "requestType: the kind table is not a package-level map filled only by its literal")
+			default:
+				for _, e := range tab.Entries {
+					k, okK := an.IntConst(e.Key)
+					v, okV := an.StrConst(e.Val)
+					if !okK || !okV {
+						km.problems = append(km.problems, "requestType: non-constant entry in the kind table")
+						continue
+					}
+					if old, dup := km.tagToKind[k]; dup && old != v {
+						km.problems = append(km.problems, sprintf("requestType: tag %d mapped twice", k))
+					}
+					km.tagToKind[k] = v
+				}
+			}
+			continue
 		}
 		switch {
 		case errNil && isConst && len(tags) == 1:
